@@ -596,8 +596,10 @@ impl DcpsDomainParticipant {
                 gap_submessage.writer_id(),
             );
             if let Some(writer_proxy) = dr.transport_reader.matched_writer_lookup(writer_guid) {
-                for seq_num in gap_submessage.gap_start()..gap_submessage.gap_list().base() {
-                    writer_proxy.irrelevant_change_set(seq_num)
+                // irrelevant_change_set only keeps the maximum: the range gap_start..base is
+                // marked by its last element instead of one call per (attacker chosen) number
+                if gap_submessage.gap_start() < gap_submessage.gap_list().base() {
+                    writer_proxy.irrelevant_change_set(gap_submessage.gap_list().base() - 1)
                 }
 
                 for seq_num in gap_submessage.gap_list().set() {
